@@ -324,6 +324,7 @@ func TestC18Equiv(t *testing.T) {
 }
 
 func TestC18Lowercase(t *testing.T) {
+	plainKeysOnly = true
 	rapid.Check(t, func(t *rapid.T) {
 		spec := genStructSpec(t, 0)
 		data := genData(t, spec)
@@ -340,7 +341,8 @@ func TestC18Lowercase(t *testing.T) {
 		changed := false
 		for i, l := range lex {
 			lower[i] = l
-			if ref.IsUnquotedIdentifier(l) && l != "length" && l[0] >= 'A' && l[0] <= 'Z' && !(i+1 < len(lex) && lex[i+1] == "(") {
+			// field names only: not function names, and not the keys of a multi-select hash (those name the result's members)
+			if ref.IsUnquotedIdentifier(l) && l != "length" && l[0] >= 'A' && l[0] <= 'Z' && !(i+1 < len(lex) && (lex[i+1] == "(" || lex[i+1] == ":")) {
 				lower[i] = strings.ToLower(l[:1]) + l[1:]
 				changed = true
 			}
